@@ -23,6 +23,7 @@ import (
 	"strconv"
 	"strings"
 	"sync"
+	"sync/atomic"
 	"testing"
 	"time"
 
@@ -697,6 +698,40 @@ func runScenario(t *testing.T, sc scenario) []ev {
 				stub = w.stubOfEndpoint(e.Endpoint)
 			}
 			w.add(ev{"k": "popped", "id": s.ID, "resource": s.Resource, "stub": stub})
+		case "firstpicks": // G pickers released together make ONE pick each (the first picks of a ready set after a change)
+			ci, ok := w.ctrl.Get(s.Name)
+			if !ok {
+				w.infra("firstpicks: no cluster %s", s.Name)
+			}
+			attrs := authorizer.AttributesRecord{User: &user.DefaultInfo{Name: "u"}, Verb: "get", APIGroup: "", Resource: s.Resource, ResourceRequest: true}
+			got := make([]int, s.G)
+			var ready, wg sync.WaitGroup
+			var gate int32
+			for k := 0; k < s.G; k++ {
+				k := k
+				ready.Add(1)
+				wg.Add(1)
+				go func() {
+					defer wg.Done()
+					picker, err := ci.MatchAttributes(attrs)
+					ready.Done()
+					for atomic.LoadInt32(&gate) == 0 {
+					}
+					if err != nil {
+						got[k] = -2
+						return
+					}
+					if e, err := picker.Pop(); err != nil {
+						got[k] = -1
+					} else {
+						got[k] = w.stubOfEndpoint(e.Endpoint)
+					}
+				}()
+			}
+			ready.Wait()
+			atomic.StoreInt32(&gate, 1)
+			wg.Wait()
+			w.add(ev{"k": "picks", "name": s.Name, "resource": s.Resource, "picked": got, "g": s.G, "first": true})
 		case "pops":
 			ci, ok := w.ctrl.Get(s.Name)
 			if !ok {
